@@ -24,7 +24,15 @@ def _case(draw, max_n=24, far=False):
     return {"cvx": draw(zoo.convex3d(max_n=max_n)), "place": draw(zoo.placement(max_offset=5.0, scale_decades=1.0)),
             "far": draw(st.sampled_from([3.0, 4.0, 5.0, 5.5, 6.0, 6.5])) if far else None,
             "perm": draw(zoo.noise(64)), "fperm": draw(zoo.noise(200)), "mode": draw(st.sampled_from(["shuffle", "reverse", "keep"])),
-            "mixed": draw(st.booleans())}
+            "mixed": draw(st.booleans()),
+            "fdtype": draw(st.sampled_from(["int64", "int64", "list", "int32", "uint8", "uint32", "uint64"]))}
+
+
+def _faces_as(T, fdtype):
+    """Face lists in the container a caller may use (mesh readers hand out unsigned index arrays)."""
+    if fdtype == "list":
+        return [list(map(int, f)) for f in T]
+    return [np.array(f, dtype=getattr(np, fdtype)) for f in T]
 
 
 def _far(V, case):
@@ -197,7 +205,7 @@ def _sort(case, rec):
     F = _shuffled_faces(facets, case["fperm"], case["mode"])
     sig = {"cls": "Polyhedron", "op": "sort_faces", "mode": case["mode"]}
     rec.concrete = {"vertices": V, "faces": F}
-    P = call(S.Polyhedron, V.copy(), [np.array(f) for f in F], True)
+    P = call(S.Polyhedron, V.copy(), _faces_as(F, case.get("fdtype", "int64")), True)
     if isinstance(P, Raised):
         rec.fail("construct", dict(sig, type=P.type), msg=P.msg)
         return
@@ -206,7 +214,7 @@ def _sort(case, rec):
         rec.fail("sort_faces", dict(sig, type=r.type), msg=r.msg)
         return
     changed = any(not cyc_equal(a, b) for a, b in zip(F, facets))
-    rec.label("mode:" + case["mode"], "faces_disordered" if changed else None, "kind:" + case["cvx"]["kind"])
+    rec.label("mode:" + case["mode"], "faces_disordered" if changed else None, "kind:" + case["cvx"]["kind"], "faces_as:" + case.get("fdtype", "int64"))
     rec.nontrivial = changed
     _check_structure(rec, P, V, facets, nrm, off, edges, nb, sig, amb, False)
 
@@ -234,7 +242,7 @@ def _merge(case, rec):
         pos += len(fc)
     sig = {"cls": "Polyhedron", "op": "merge_faces", "winding": "mixed" if case["mixed"] else "consistent"}
     rec.concrete = {"vertices": V, "faces": T}
-    P = call(S.Polyhedron, V.copy(), [np.array(f) for f in T])
+    P = call(S.Polyhedron, V.copy(), _faces_as(T, case.get("fdtype", "int64")))
     if isinstance(P, Raised):
         rec.fail("construct", dict(sig, type=P.type), msg=P.msg)
         return
@@ -243,7 +251,8 @@ def _merge(case, rec):
         rec.fail("merge_faces", dict(sig, type=r.type), msg=r.msg)
         return
     maxdeg = max(len(f) for f in facets)
-    rec.label("winding:" + sig["winding"], "nontriangular" if maxdeg > 3 else "alltriangles", "kind:" + case["cvx"]["kind"])
+    rec.label("winding:" + sig["winding"], "nontriangular" if maxdeg > 3 else "alltriangles", "kind:" + case["cvx"]["kind"],
+              "faces_as:" + case.get("fdtype", "int64"))
     rec.nontrivial = maxdeg > 3
     _check_structure(rec, P, V, facets, nrm, off, edges, nb, sig, amb, False)
 
